@@ -688,12 +688,14 @@ class FieldedOrderedHashReader(HashReader):
         else:
             raise Exception("Unknown index type %r" % ixtype)
 
-        # Do a binary search of the positions in the index array
+        # Do a binary search of the positions in the index array (ixsize is
+        # the number of positions, each taking itemsize bytes)
+        itemsize = struct.calcsize(ixtype)
         lo = 0
         hi = ixsize
         while lo < hi:
             mid = (lo + hi) // 2
-            midkey = key_at(startpos + get_pos(ixpos + mid * ixsize))
+            midkey = key_at(startpos + get_pos(ixpos + mid * itemsize))
             if midkey < key:
                 lo = mid + 1
             else:
@@ -703,7 +705,7 @@ class FieldedOrderedHashReader(HashReader):
         if lo == ixsize:
             return None
         # Return the closest key
-        return startpos + get_pos(ixpos + lo * ixsize)
+        return startpos + get_pos(ixpos + lo * itemsize)
 
     def closest_term(self, fieldname, btext):
         pos = self.closest_term_pos(fieldname, btext)
